@@ -1,6 +1,7 @@
 package main
 
 import (
+	"encoding/json"
 	"fmt"
 	"strings"
 
@@ -74,7 +75,13 @@ type addrT struct {
 	idx  int
 }
 
-func (a addrT) MarshalJSON() ([]byte, error) { return []byte(fmt.Sprintf("[%q,%d]", a.name, a.idx)), nil }
+func (a addrT) MarshalJSON() ([]byte, error) {
+	n, err := json.Marshal(a.name)
+	if err != nil {
+		return nil, err
+	}
+	return []byte(fmt.Sprintf("[%s,%d]", n, a.idx)), nil
+}
 
 func c12Probe(c *ucfg.Config, a addrT, opts []ucfg.Option) (string, string) {
 	var has, str, child string
@@ -180,7 +187,15 @@ func applySet(c *ucfg.Config, name string, idx int, v interface{}, opts []ucfg.O
 
 // c12Run executes one history and returns the case.
 func c12Run(sep string, initTree map[string]interface{}, probes []addrT, ops []c12Op) (Case, bool) {
+	return c12RunMax(sep, 1024, initTree, probes, ops)
+}
+
+// c12RunMax: the same under MaxIdx(maxIdx) (1024 is the default and is not passed as an option)
+func c12RunMax(sep string, maxIdx int64, initTree map[string]interface{}, probes []addrT, ops []c12Op) (Case, bool) {
 	var opts []ucfg.Option
+	if maxIdx != 1024 {
+		opts = append(opts, ucfg.MaxIdx(maxIdx))
+	}
 	if sep != "" {
 		opts = append(opts, ucfg.PathSep(sep))
 	}
@@ -188,7 +203,7 @@ func c12Run(sep string, initTree map[string]interface{}, probes []addrT, ops []c
 	if err != nil {
 		return Case{}, false
 	}
-	popts := fmt.Sprintf("{| p_sep := %s; p_maxIdx := 1024; p_numKeys := false; p_escape := false |}", coqStr(sep))
+	popts := fmt.Sprintf("{| p_sep := %s; p_maxIdx := %d; p_numKeys := false; p_escape := false |}", coqStr(sep), maxIdx)
 	init := ucfg.VerifDump(root)
 	p0, d0 := c12Probes(root, probes, opts)
 	var steps []string
